@@ -35,6 +35,8 @@ IntV(n) == [ty |-> "int", v |-> n]
 StrV(s) == [ty |-> "str", v |-> s]        \* s: sequence of code points
 BytV(s) == [ty |-> "bytes", v |-> s]
 VecV(c) == [ty |-> "vec", v |-> c]        \* 3 components
+QuatV(c) == [ty |-> "quat", v |-> c]      \* 4 components (occurs as an unpacked subfield only)
+PackedV == [ty |-> "packed", v |-> 0]     \* the raw bytes of a field that has a subfield serializer (opaque here)
 NoneV   == [ty |-> "none", v |-> 0]
 NoLit   == [ty |-> "na", v |-> 0]         \* literal slot of an atom without operator
 
@@ -83,8 +85,10 @@ Cmp(o, a, l) ==
 \* Domain rule of the generators (not a check): Python container semantics that the
 \* property does not speak about are kept out (membership of an int in bytes / of anything
 \* in a vector; zip-truncating comparison of a vector with a text value).
-InDomain(o, a, l) == /\ ~(o = "~=" /\ (a.ty = "vec" \/ (a.ty = "bytes" /\ l.ty = "int")))
+InDomain(o, a, l) == /\ ~(o = "~=" /\ (a.ty \in {"vec", "quat"} \/ (a.ty = "bytes" /\ l.ty = "int")))
                      /\ ~(o \in {"<", "<=", ">", ">="} /\ a.ty = "vec" /\ IsText(l.ty))
+                     /\ ~(o \in {"<", "<=", ">", ">="} /\ a.ty = "quat" /\ (IsText(l.ty) \/ l.ty = "vec"))
+                     /\ a.ty # "packed"
                      /\ l.ty # "na"
 
 Truthy(a) == CASE a.ty = "int" -> a.v # 0
@@ -94,7 +98,9 @@ Truthy(a) == CASE a.ty = "int" -> a.v # 0
 
 (******************************* entries ***********************************)
 \* entry == [kind |-> "LLUDP"|"EQ"|"HTTP", name |-> str, meta |-> <<[key, val]..>>,
-\*           blocks |-> <<[blk |-> str, vars |-> <<[var |-> str, val |-> V]..>>]..>>]
+\*           blocks |-> <<[blk |-> str, vars |-> <<[var |-> str, val |-> V, subs |-> <<[sub |-> name, val |-> V]..>>]..>>]..>>]
+\* `subs` are the named subfields a field unpacks to when it has a subfield serializer (empty otherwise);
+\* subfield names and the fourth selector component are code-point sequences, 42 = '*' matches any run.
 \* Only LLUDP entries have selectable fields.
 Pat(p, s) == p = "*" \/ p = s                  \* the two pattern forms of the model
 RootMatches(p, e) == Pat(p, e.name) \/ Pat(p, e.kind)
@@ -112,6 +118,20 @@ Selected(a, e) ==
                      j \in {j \in DOMAIN e.blocks[i].vars : Pat(a.sel[3], e.blocks[i].vars[j].var)} } :
                  i \in {i \in DOMAIN e.blocks : Pat(a.sel[2], e.blocks[i].blk)} }
     ELSE {}
+RECURSIVE Glob(_, _)
+Glob(p, n) == IF p = <<>> THEN n = <<>>
+              ELSE IF p[1] = 42 THEN Glob(Tail(p), n) \/ (n # <<>> /\ Glob(p, Tail(n)))
+              ELSE n # <<>> /\ n[1] = p[1] /\ Glob(Tail(p), Tail(n))
+\* values of the SUBFIELDS a four-part selector selects: the unpacked subfields, named like the fourth
+\* component, of every selected field
+SubSelected(a, e) ==
+    IF e.kind = "LLUDP" /\ RootMatches(a.sel[1], e)
+    THEN UNION { UNION { { e.blocks[i].vars[j].subs[k].val :
+                             k \in {k \in DOMAIN e.blocks[i].vars[j].subs : Glob(a.sel[4], e.blocks[i].vars[j].subs[k].sub)} } :
+                         j \in {j \in DOMAIN e.blocks[i].vars : Pat(a.sel[3], e.blocks[i].vars[j].var)} } :
+                 i \in {i \in DOMAIN e.blocks : Pat(a.sel[2], e.blocks[i].blk)} }
+    ELSE {}
+SubVerdicts(a, e) == { IF IsBare(a) THEN "T" ELSE Cmp(a.op, f, a.lit) : f \in SubSelected(a, e) }
 \* a bare three-part selector asks for the presence of a field
 FieldVerdicts(a, e) == { IF IsBare(a) THEN "T" ELSE Cmp(a.op, f, a.lit) : f \in Selected(a, e) }
 MetaVerdict(a, e) == IF IsBare(a) THEN B(Truthy(MetaVal(e, a.sel[2])))
@@ -121,6 +141,7 @@ AtomVerdicts(a, e) ==
     CASE Len(a.sel) = 1 -> {B(IsBare(a) /\ RootMatches(a.sel[1], e))}
       [] Len(a.sel) = 2 /\ a.sel[1] = "Meta" -> {MetaVerdict(a, e)}
       [] Len(a.sel) = 3 /\ a.sel[1] # "Meta" -> FieldVerdicts(a, e)
+      [] Len(a.sel) = 4 /\ a.sel[1] # "Meta" -> SubVerdicts(a, e)
       [] OTHER -> {}
 \* THE atom semantics of the property: true iff some selected field satisfies it;
 \* an inapplicable comparison ("X") is simply not a "T".
@@ -251,7 +272,9 @@ CmpVals == {IntV(0), IntV(1), IntV(2), IntV(3), IntV(6), StrV(<<>>), StrV(S_a), 
 CmpLits == {IntV(0), IntV(1), IntV(2), IntV(4), StrV(<<>>), StrV(S_a), StrV(S_ab), StrV(S_b), BytV(S_a), BytV(S_b),
             NoneV, VecV(<<1, 2, 3>>), VecV(<<2, 2, 2>>), VecV(<<1, 3, 1>>)}
 Blk(b, vs) == [blk |-> b, vars |-> vs]
-Var(n, a) == [var |-> n, val |-> a]
+Var(n, a) == [var |-> n, val |-> a, subs |-> <<>>]
+SubVar(n, ss) == [var |-> n, val |-> PackedV, subs |-> ss]
+Sub(n, a) == [sub |-> n, val |-> a]
 Ent(k, n, m, bs) == [kind |-> k, name |-> n, meta |-> m, blocks |-> bs]
 MetaKV(k, a) == [key |-> k, val |-> a]
 
@@ -274,6 +297,56 @@ SelSelectors == {<<"Foo", "Bar", "A">>, <<"Foo", "*", "A">>, <<"Foo", "Bar", "*"
                  <<"LLUDP", "*", "B">>, <<"Zed", "*", "*">>, <<"Foo", "Qux", "A">>, <<"Foo", "Bar">>, <<"Foo">>, <<"*">>,
                  <<"EQ">>, <<"HTTP">>, <<"Zed">>}
 SelAtoms == {Atom(s, "<", IntV(2)) : s \in SelSelectors} \cup {Atom(s, "", NoLit) : s \in SelSelectors}
+
+\* (b') subfield selection.  Names as code points.
+N_Position == <<80,111,115,105,116,105,111,110>>
+N_Velocity == <<86,101,108,111,99,105,116,121>>
+N_Acceleration == <<65,99,99,101,108,101,114,97,116,105,111,110>>
+N_Rotation == <<82,111,116,97,116,105,111,110>>
+N_AngularVelocity == <<65,110,103,117,108,97,114,86,101,108,111,99,105,116,121>>
+N_ID == <<73,68>>
+N_State == <<83,116,97,116,101>>
+N_FootCollisionPlane == <<70,111,111,116,67,111,108,108,105,115,105,111,110,80,108,97,110,101>>
+G_star == <<42>>
+G_starVelocity == <<42>> \o N_Velocity                \* *Velocity : Velocity, AngularVelocity
+G_c == <<42, 99, 42>>                                  \* *c*       : Velocity, Acceleration, AngularVelocity
+G_Astar == <<65, 42>>                                  \* A*        : Acceleration, AngularVelocity
+G_x == <<42, 120, 42>>                                 \* *x*       : nothing
+G_e == <<42, 101, 42>>                                 \* *e*       : State, FootCollisionPlane, Velocity, Acceleration, AngularVelocity
+G_starD == <<42, 68>>                                  \* *D        : ID
+G_Sstar == <<83, 42>>                                  \* S*        : State
+Vc0 == VecV(<<0, 0, 0>>)
+Vc1 == VecV(<<1, 1, 1>>)
+Vc3 == VecV(<<3, 3, 3>>)
+Vc128 == VecV(<<128, 128, 128>>)
+QId == QuatV(<<0, 0, 0, 1>>)
+\* family A: ObjectUpdate.ObjectData.ObjectData (full-precision form): five subfields, unpacked in this order
+OUData(p, vv, ac, av) == SubVar("ObjectData", <<Sub(N_Position, p), Sub(N_Velocity, vv), Sub(N_Acceleration, ac),
+                                                 Sub(N_Rotation, QId), Sub(N_AngularVelocity, av)>>)
+SubEntriesA == {Ent("LLUDP", "ObjectUpdate", <<>>, <<Blk("ObjectData", <<OUData(p, vv, ac, av)>>)>>) :
+                    p \in {Vc0, Vc1, Vc3}, vv \in {Vc0, Vc1, Vc3}, ac \in {Vc0, Vc1, Vc3}, av \in {Vc0, Vc1, Vc3}}
+               \cup {Ent("LLUDP", "ObjectUpdate", <<>>, <<Blk("ObjectData", <<OUData(Vc3, Vc3, Vc3, Vc3)>>),
+                                                          Blk("ObjectData", <<OUData(Vc3, vv, ac, Vc3)>>)>>) :   \* a later block instance
+                    vv \in {Vc0, Vc3}, ac \in {Vc1, Vc3}}
+SubSelA(g) == <<"ObjectUpdate", "ObjectData", "ObjectData", g>>
+SubPatsA == {N_Position, N_Velocity, N_AngularVelocity, N_Rotation, G_starVelocity, G_c, G_Astar, G_star, G_x}
+SubCmpsA == {<<"==", Vc0>>, <<"!=", Vc0>>, <<"<", VecV(<<2, 2, 2>>)>>, <<">=", Vc1>>, <<"==", Vc3>>, <<"&", IntV(1)>>, <<"==", IntV(1)>>}
+SubAtomsA == {Atom(SubSelA(g), c[1], c[2]) : g \in SubPatsA, c \in SubCmpsA}
+             \cup {Atom(SubSelA(g), "", NoLit) : g \in SubPatsA}
+             \cup {Atom(<<s[1], s[2], s[3], g>>, "==", Vc3) :
+                       s \in {<<"ObjectUpdate", "*", "*">>, <<"*", "*", "*">>, <<"LLUDP", "ObjectData", "*">>, <<"Zed", "*", "*">>,
+                              <<"ObjectUpdate", "ObjectData", "Nope">>}, g \in {G_c, N_Acceleration}}
+\* family B: ImprovedTerseObjectUpdate.ObjectData.Data: subfields of different types (int, None, vector, quaternion)
+TerseData(id, st, p, vv) == SubVar("Data", <<Sub(N_ID, IntV(id)), Sub(N_State, IntV(st)), Sub(N_FootCollisionPlane, NoneV),
+                                            Sub(N_Position, p), Sub(N_Velocity, vv), Sub(N_Acceleration, Vc0),
+                                            Sub(N_Rotation, QId), Sub(N_AngularVelocity, Vc0)>>)
+SubEntriesB == {Ent("LLUDP", "ImprovedTerseObjectUpdate", <<>>, <<Blk("ObjectData", <<TerseData(id, st, p, vv)>>)>>) :
+                    id \in {1, 4}, st \in {1, 4}, p \in {Vc1, Vc3}, vv \in {Vc0, Vc128}}
+SubSelB(g) == <<"ImprovedTerseObjectUpdate", "ObjectData", "Data", g>>
+SubPatsB == {N_ID, N_State, N_Velocity, N_FootCollisionPlane, G_e, G_starD, G_Sstar, G_star, G_starVelocity}
+SubCmpsB == {<<"<", VecV(<<2, 2, 2>>)>>, <<"&", IntV(1)>>, <<"<", IntV(2)>>, <<"==", Vc0>>, <<"==", IntV(1)>>, <<"^=", StrV(S_a)>>,
+             <<"==", NoneV>>, <<">", IntV(2)>>}
+SubAtomsB == {Atom(SubSelB(g), c[1], c[2]) : g \in SubPatsB, c \in SubCmpsB} \cup {Atom(SubSelB(g), "", NoLit) : g \in SubPatsB}
 
 \* (c) boolean structure: three atoms whose verdict is T / F / X independently
 TreeAtoms(k) == CASE k = "LLUDP" -> {Atom(<<"Foo", "Bar", "A">>, "<", IntV(2)), Atom(<<"Foo", "*", "B">>, "~=", StrV(S_a)),
@@ -391,6 +464,7 @@ LogOnlyAppends == [][(flt' = flt /\ Len(arr') > Len(arr)) =>
 \* One initial state per probe; no transitions.  Invariants are laws of Part 1.
 TreeProbes == {<<"tree", t>> : t \in Trees(TreeDepth, TreeAtoms(TreeKind))}
 AtomDomainOK(a, e) == IsBare(a) \/ CASE Len(a.sel) = 3 -> \A f \in Selected(a, e) : InDomain(a.op, f, a.lit)
+                                          [] Len(a.sel) = 4 -> \A f \in SubSelected(a, e) : InDomain(a.op, f, a.lit)
                                           [] Len(a.sel) = 2 -> InDomain(a.op, MetaVal(e, a.sel[2]), a.lit)
                                           [] OTHER -> TRUE
 RECURSIVE TreeDomainOK(_, _)
@@ -400,11 +474,13 @@ TreeDomainOK(t, e) == CASE t[1] = "atom" -> AtomDomainOK(t[2], e)
 AtomProbes == {p \in {<<"atom", a, e>> : a \in CmpAtoms, e \in CmpEntries} : AtomDomainOK(p[2], p[3])}
               \cup {p \in {<<"atom", a, e>> : a \in MetaCmpAtoms, e \in MetaCmpEntries} : AtomDomainOK(p[2], p[3])}
               \cup {<<"atom", a, e>> : a \in SelAtoms, e \in SelEntries}
+              \cup {p \in {<<"atom", a, e>> : a \in SubAtomsA, e \in SubEntriesA} : AtomDomainOK(p[2], p[3])}
+              \cup {p \in {<<"atom", a, e>> : a \in SubAtomsB, e \in SubEntriesB} : AtomDomainOK(p[2], p[3])}
 TokProbes == {<<"toks", ts>> : ts \in TokStrings(TokLen)}
 CONSTANT ProbeKinds
 InitProbe == /\ arr = <<>> /\ raw = <<>> /\ view = <<>> /\ flt = AllFilter /\ paused = FALSE /\ ret = {}
              /\ probe \in (IF "tree" \in ProbeKinds THEN TreeProbes ELSE {})
-                          \cup (IF "atom" \in ProbeKinds THEN AtomProbes ELSE {})
+                          \cup (IF "atom" \in ProbeKinds THEN AtomProbes \cup {<<"subcover">>} ELSE {})
                           \cup (IF "toks" \in ProbeKinds THEN TokProbes ELSE {})
 SpecProbe == InitProbe /\ [][UNCHANGED vars]_vars
 
@@ -439,6 +515,20 @@ CmpLaws == IsP("atom") /\ Len(probe[2].sel) = 3 /\ ~IsBare(probe[2]) =>
                  /\ ((c("==") = "T") => (c("^=") = "T" /\ c("$=") = "T"))
            /\ (f.ty = l.ty /\ f.ty = "vec") => /\ ((c("<") = "T") => (c("<=") = "T" /\ c(">=") = "F"))
                                               /\ ((c("==") = "T") => (c("<=") = "T" /\ c(">=") = "T"))
+\* the subfield families contain, for globs, "the first selected subfield is F or X and a later one T" and the reverse
+SubSeq4(a, e) == \* verdicts of the selected subfields of the FIRST selected field, in unpacking order
+    LET v == e.blocks[1].vars[1] IN
+    [k \in 1..Len(SelectSeq(v.subs, LAMBDA z : Glob(a.sel[4], z.sub))) |->
+        Cmp(a.op, SelectSeq(v.subs, LAMBDA z : Glob(a.sel[4], z.sub))[k].val, a.lit)]
+SubOrderCases ==
+    LET P == {p \in AtomProbes : Len(p[2].sel) = 4 /\ ~IsBare(p[2]) /\ p[2].sel[2] = "ObjectData" /\ p[2].sel[3] \in {"ObjectData", "Data"}}
+        Sq == {SubSeq4(p[2], p[3]) : p \in P}
+    IN /\ \E q \in Sq : Len(q) >= 3 /\ q[1] = "F" /\ \E k \in 2..Len(q) : q[k] = "T"
+       /\ \E q \in Sq : Len(q) >= 3 /\ q[1] = "X" /\ \E k \in 2..Len(q) : q[k] = "T"
+       /\ \E q \in Sq : Len(q) >= 3 /\ q[1] = "T" /\ \E k \in 2..Len(q) : q[k] = "F"
+       /\ \E q \in Sq : Len(q) >= 3 /\ q[1] = "T" /\ \E k \in 2..Len(q) : q[k] = "X"
+\* (a fact about the families: evaluated on one probe only)
+SubFamiliesCover == IsP("subcover") => SubOrderCases
 \* an atom is true only if some selected field satisfies it
 AtomNeedsWitness == IsP("atom") => (AtomTrue(probe[2], probe[3]) => AtomVerdicts(probe[2], probe[3]) # {})
 =============================================================================
